@@ -127,11 +127,15 @@ def posDump : Option Pos → String
 def keyTypeDump : KeyType → String
   | .none => "0" | .unique => "1" | .spatial => "2" | .fulltext => "3"
 
+def prevDump : Option IndexDef → String
+  | none => "~"
+  | some p => s!"{p.name}:{keyTypeDump p.typ}:{p.indexType}:{p.isPk}:{",".intercalate p.cols}"
+
 def tableDump (t : Table) : List String :=
   [s!"T {t.name} old={t.oldName} act={t.action.toNat} pos={posDump t.pendingPos}"] ++
   t.cols.map (fun c => s!" C {c.name} old={c.oldName} act={c.action.toNat} {attrDump c.cur} prev:{attrDump c.prev}") ++
   [" CI " ++ mapDump t.colIdx] ++
-  t.idxs.map (fun i => s!" I {i.name} old={i.oldName} act={i.action.toNat} typ={keyTypeDump i.typ} itype={i.indexType} pk={i.isPk} cols={",".intercalate i.cols}") ++
+  t.idxs.map (fun i => s!" I {i.name} old={i.oldName} act={i.action.toNat} typ={keyTypeDump i.typ} itype={i.indexType} pk={i.isPk} cols={",".intercalate i.cols} prev={prevDump i.prev}") ++
   [" II " ++ mapDump t.idxIdx] ++
   t.fks.map (fun f => s!" F {f.name} act={f.action.toNat} table={f.table} col={f.column} rt={f.refTable} rc={f.refColumn}") ++
   [" FI " ++ mapDump t.fkIdx]
